@@ -261,4 +261,65 @@ Proof.
     eexists; eexists; split; [reflexivity|]. split; [lia|]. intros Hle.
     destruct (Nat.ltb_spec (length l + r) n); [lia|]. rewrite Hr3 by lia. split; auto.
 Qed.
+
+(* ---- histories ---- *)
+Fixpoint run_ops (a : array) (os : list (op V)) : res array :=
+  match os with [] => Ok a | o :: t => a' <- run_op a o ;; run_ops a' t end.
+Fixpoint spec_ops (l : list V) (d : V) (os : list (op V)) : option (list V) :=
+  match os with [] => Some l | o :: t => match spec_op l d o with Some l' => spec_ops l' d t | None => None end end.
+(* every operation of the history is meaningful on the list level, and every intermediate length and every reserved
+   amount is at most B *)
+Fixpoint bounded (l : list V) (d : V) (os : list (op V)) (B : nat) : Prop :=
+  match os with
+  | [] => True
+  | o :: t => match spec_op l d o with
+              | Some l' => length l' <= B /\ (forall n, o = OReserve V n -> n <= B) /\ bounded l' d t B
+              | None => False
+              end
+  end.
+
+Theorem history_refines (os : list (op V)) : forall (l : list V) r al d B,
+  bounded l d os B -> fits B ->
+  exists l' r' al', spec_ops l d os = Some l' /\
+    run_ops (mkArray (arr_of l r) al) os = Ok (mkArray (arr_of l' r') al') /\
+    length l + r <= length l' + r' /\
+    (B <= length l + r -> al' = al /\ length l' + r' = length l + r).
+Proof.
+  induction os as [|o t IH]; intros l r al d B Hb Hf; simpl in *.
+  - exists l, r, al. repeat split; auto.
+  - destruct (spec_op l d o) as [l1|] eqn:Hs; [|contradiction]. destruct Hb as (Hlen & Hres & Hb).
+    destruct (step_refines l l1 r al d o B Hs Hlen Hres Hf) as (r1 & al1 & -> & Hcap1 & Hno1). simpl.
+    destruct (IH l1 r1 al1 d B Hb Hf) as (l' & r' & al' & Hspec & Hrun & Hcap & Hno).
+    exists l', r', al'. split; [auto|]. split; [auto|]. split; [lia|]. intros HB.
+    destruct (Hno1 HB) as (-> & Hc). destruct (Hno ltac:(lia)) as (-> & Hc'). split; auto. lia.
+Qed.
+
+(* after Reserve(n): any history of AddBack / Insert (n copies, ranges) / Remove / Reserve with aliased arguments whose
+   lengths stay <= n performs NO allocation, and still refines the list operations *)
+Theorem reserve_then_grow_no_alloc (l : list V) r al n d (os : list (op V)) :
+  fits n -> length l <= n -> bounded l d os n ->
+  exists r1 al1 l' r',
+    array_reserve V growOnReserve (mkArray (arr_of l r) al) n = Ok (mkArray (arr_of l r1) al1) /\
+    n <= length l + r1 /\
+    spec_ops l d os = Some l' /\
+    run_ops (mkArray (arr_of l r1) al1) os = Ok (mkArray (arr_of l' r') al1) /\
+    length l' + r' = length l + r1.
+Proof.
+  intros Hf Hl Hb.
+  destruct (array_reserve_ok l r al n Hf) as (r1 & Hres & Hn & _ & _).
+  destruct (history_refines os l r1 (if length l + r <? n then S al else al) d n Hb Hf)
+    as (l' & r' & al' & Hspec & Hrun & _ & Hno).
+  destruct (Hno Hn) as (-> & Hc).
+  eexists r1, _, l', r'. split; [exact Hres|]. repeat split; auto.
+Qed.
 End AP.
+
+(* non-vacuity: a history with aliased arguments, empty ranges and a Reserve satisfies `bounded` *)
+Example bounded_example :
+  bounded nat [1;2;3] 0 [OAddBack nat (ArgRef 0); OInsert nat 1 2 (ArgRef 3); ORemove nat 0 0; OInsert nat 2 0 (ArgRef 1);
+                     OReserve nat 9; OInsertRange nat 6 [7;8]; ORemove nat 1 3] 10
+  /\ spec_ops nat [1;2;3] 0 [OAddBack nat (ArgRef 0); OInsert nat 1 2 (ArgRef 3); ORemove nat 0 0; OInsert nat 2 0 (ArgRef 1);
+                     OReserve nat 9; OInsertRange nat 6 [7;8]; ORemove nat 1 3] = Some [1;3;1;7;8].
+Proof.
+  split; [|reflexivity]. simpl. repeat split; try lia; intros n H; try discriminate. inversion H; lia.
+Qed.
